@@ -124,6 +124,9 @@ func (o nfOpts) nfD(v ssa.Value, d int, seen map[ssa.Value]bool) string {
 	case *ssa.Range:
 		return "range(" + rec(x.X) + ")"
 	case *ssa.Phi:
+		if s, ok := o.phiCongruent(x, d, seen); ok {
+			return s
+		}
 		var es []string
 		for _, e := range x.Edges {
 			es = append(es, rec(e))
@@ -186,4 +189,47 @@ func funcShape(f *ssa.Function) string {
 		parts = append(parts, "|")
 	}
 	return strings.Join(parts, " ")
+}
+
+// phiCongruent: a phi whose k-th edge is the same expression e(·) over the k-th edge of a sibling phi q of the same block
+// is e(q) - `for nxt := curr.next[i]; …; nxt = curr.next[i] { curr = nxt }` keeps nxt == curr.next[i] at the loop head.
+func (o nfOpts) phiCongruent(x *ssa.Phi, d int, seen map[ssa.Value]bool) (string, bool) {
+	const hole = "\u00a7"
+	for _, ins := range x.Block().Instrs {
+		q, ok := ins.(*ssa.Phi)
+		if !ok {
+			break
+		}
+		if q == x || len(q.Edges) != len(x.Edges) || len(x.Edges) < 2 {
+			continue
+		}
+		shape, good := "", true
+		for k, e := range x.Edges {
+			qe := q.Edges[k]
+			if qe == e {
+				good = false
+				break
+			}
+			o2 := o
+			o2.abstract = func(v ssa.Value) string {
+				if v == qe {
+					return hole
+				}
+				if o.abstract != nil {
+					return o.abstract(v)
+				}
+				return ""
+			}
+			sk := o2.nfD(e, d, seen)
+			if !strings.Contains(sk, hole) || (k > 0 && sk != shape) {
+				good = false
+				break
+			}
+			shape = sk
+		}
+		if good {
+			return strings.ReplaceAll(shape, hole, o.nfD(q, d+1, seen)), true
+		}
+	}
+	return "", false
 }
